@@ -16,3 +16,334 @@ package resource_info
 //@   pure
 //@   ensures result == r.gpus + migGpus(r)
 //@ end
+
+// Total GPU quota of a request (whole + fractional GPUs, DRA claim counts, MIG share): two map folds
+// (one parsing MIG profile names). Kept abstract; name `gpusQuota` is used by other packages (C08).
+//@ declare gpusQuota(g *GpuResourceRequirement) real
+
+//@ func (*GpuResourceRequirement).GetGpusQuota
+//@   props C08 C14
+//@   trusted
+//@   note assumed: quota = MIG share + DRA counts + extended-resource GPUs; the two map folds are not verified
+//@   requires g != nil
+//@   pure
+//@   ensures result == gpusQuota(g)
+//@ end
+
+// ---- BaseResource -----------------------------------------------------------
+// C01: a request "fits" an amount iff cpu and memory are within it and every scalar resource the
+// request names is present in the amount with at least the requested quantity.
+//@ define fitsScalars(a map[v1.ResourceName]int64, b map[v1.ResourceName]int64) bool = forall k in a :: k in b && a[k] <= b[k]
+//@ define fitsBase(r *BaseResource, rr *BaseResource) bool = r.milliCpu <= rr.milliCpu && r.memory <= rr.memory && fitsScalars(r.scalarResources, rr.scalarResources)
+
+//@ func (*BaseResource).LessEqual
+//@   props C01 C14
+//@   requires r != nil && rr != nil
+//@   pure
+//@   loop 1
+//@     invariant forall k in visited :: k in rr.scalarResources && r.scalarResources[k] <= rr.scalarResources[k]
+//@   ensures result == fitsBase(r, rr)
+//@ end
+
+// C14: Add/Sub are exact, component-wise; a scalar whose sum becomes 0 is dropped from the map,
+// every other key named by `other` is present afterwards, keys not named by `other` are untouched.
+//@ func (*BaseResource).Add
+//@   props C01 C14
+//@   requires r != nil && other != nil && r.scalarResources != nil && r.scalarResources != other.scalarResources
+//@   modifies r.milliCpu, r.memory, r.scalarResources[*]
+//@   loop 1
+//@     invariant forall k in visited :: k in other.scalarResources
+//@     invariant forall k in visited :: r.scalarResources[k] == old(r.scalarResources[k]) + other.scalarResources[k] && (k in r.scalarResources <==> r.scalarResources[k] != 0)
+//@     invariant forall k v1.ResourceName :: !(k in visited) ==> r.scalarResources[k] == old(r.scalarResources[k]) && (k in r.scalarResources <==> old(k in r.scalarResources))
+//@     invariant forall m map[v1.ResourceName]int64, k v1.ResourceName :: m != r.scalarResources ==> m[k] == old(m[k]) && (k in m <==> old(k in m))
+//@     invariant forall m map[v1.ResourceName]int64 :: m != r.scalarResources ==> dom(m) == old(dom(m))
+//@   ensures r.milliCpu == old(r.milliCpu) + other.milliCpu
+//@   ensures r.memory == old(r.memory) + other.memory
+//@   ensures forall k v1.ResourceName :: r.scalarResources[k] == old(r.scalarResources[k]) + other.scalarResources[k]
+//@   ensures forall k v1.ResourceName :: k in r.scalarResources <==> ite(k in other.scalarResources, r.scalarResources[k] != 0, old(k in r.scalarResources))
+//@ end
+
+//@ func (*BaseResource).Sub
+//@   props C01 C14
+//@   requires r != nil && other != nil && r.scalarResources != nil && r.scalarResources != other.scalarResources
+//@   modifies r.milliCpu, r.memory, r.scalarResources[*]
+//@   loop 1
+//@     invariant forall k in visited :: k in other.scalarResources
+//@     invariant forall k in visited :: r.scalarResources[k] == old(r.scalarResources[k]) - other.scalarResources[k] && (k in r.scalarResources <==> r.scalarResources[k] != 0)
+//@     invariant forall k v1.ResourceName :: !(k in visited) ==> r.scalarResources[k] == old(r.scalarResources[k]) && (k in r.scalarResources <==> old(k in r.scalarResources))
+//@     invariant forall m map[v1.ResourceName]int64, k v1.ResourceName :: m != r.scalarResources ==> m[k] == old(m[k]) && (k in m <==> old(k in m))
+//@     invariant forall m map[v1.ResourceName]int64 :: m != r.scalarResources ==> dom(m) == old(dom(m))
+//@   ensures r.milliCpu == old(r.milliCpu) - other.milliCpu
+//@   ensures r.memory == old(r.memory) - other.memory
+//@   ensures forall k v1.ResourceName :: r.scalarResources[k] == old(r.scalarResources[k]) - other.scalarResources[k]
+//@   ensures forall k v1.ResourceName :: k in r.scalarResources <==> ite(k in other.scalarResources, r.scalarResources[k] != 0, old(k in r.scalarResources))
+//@ end
+
+//@ func (*BaseResource).Get
+//@   props C01 C14
+//@   requires r != nil
+//@   pure
+//@   ensures result == ite(rn == "cpu", r.milliCpu, ite(rn == "memory", r.memory, real(r.scalarResources[rn])))
+//@ end
+
+//@ func (*BaseResource).Clone
+//@   props C01 C14
+//@   trusted
+//@   note body calls golang.org/x/exp/maps.Clone (generic, external, no body loaded: havoc-all); assumed to return a fresh map with the same entries (nil for nil)
+//@   requires r != nil
+//@   fresh
+//@   ensures result.milliCpu == r.milliCpu && result.memory == r.memory
+//@   ensures forall k v1.ResourceName :: result.scalarResources[k] == r.scalarResources[k] && (k in result.scalarResources <==> k in r.scalarResources)
+//@   ensures r.scalarResources != nil ==> fresh(result.scalarResources)
+//@ end
+
+// ---- Resource -----------------------------------------------------------------
+//@ define fitsRes(r *Resource, rr *Resource) bool = r.gpus <= rr.gpus && fitsBase(r.BaseResource, rr.BaseResource)
+
+//@ func (*Resource).LessEqual
+//@   props C01 C14
+//@   requires r != nil && rr != nil
+//@   pure
+//@   ensures result == fitsRes(r, rr)
+//@ end
+
+//@ func (*Resource).Add
+//@   props C01 C14
+//@   requires r != nil && other != nil && r.scalarResources != nil && r.scalarResources != other.scalarResources
+//@   modifies r.milliCpu, r.memory, r.gpus, r.scalarResources[*]
+//@   ensures r.milliCpu == old(r.milliCpu) + other.milliCpu
+//@   ensures r.memory == old(r.memory) + other.memory
+//@   ensures r.gpus == old(r.gpus) + old(other.gpus)
+//@   ensures forall k v1.ResourceName :: r.scalarResources[k] == old(r.scalarResources[k]) + other.scalarResources[k]
+//@   ensures forall k v1.ResourceName :: k in r.scalarResources <==> ite(k in other.scalarResources, r.scalarResources[k] != 0, old(k in r.scalarResources))
+//@ end
+
+//@ func (*Resource).Sub
+//@   props C01 C14
+//@   requires r != nil && other != nil && r.scalarResources != nil && r.scalarResources != other.scalarResources
+//@   modifies r.milliCpu, r.memory, r.gpus, r.scalarResources[*]
+//@   ensures r.milliCpu == old(r.milliCpu) - other.milliCpu
+//@   ensures r.memory == old(r.memory) - other.memory
+//@   ensures r.gpus == old(r.gpus) - old(other.gpus)
+//@   ensures forall k v1.ResourceName :: r.scalarResources[k] == old(r.scalarResources[k]) - other.scalarResources[k]
+//@   ensures forall k v1.ResourceName :: k in r.scalarResources <==> ite(k in other.scalarResources, r.scalarResources[k] != 0, old(k in r.scalarResources))
+//@ end
+
+//@ func (*Resource).Get
+//@   props C01 C14
+//@   requires r != nil
+//@   pure
+//@   ensures result == ite(rn == "nvidia.com/gpu" || rn == "amd.com/gpu", r.gpus, ite(rn == "cpu", r.milliCpu, ite(rn == "memory", r.memory, real(r.scalarResources[rn]))))
+//@ end
+
+//@ func (*Resource).Clone
+//@   props C01 C14
+//@   requires r != nil
+//@   fresh
+//@   ensures result.milliCpu == r.milliCpu && result.memory == r.memory && result.gpus == r.gpus
+//@   ensures forall k v1.ResourceName :: result.scalarResources[k] == r.scalarResources[k] && (k in result.scalarResources <==> k in r.scalarResources)
+//@   ensures r.scalarResources != nil ==> fresh(result.scalarResources)
+//@ end
+
+//@ func (*Resource).GPUs
+//@   props C01 C02 C14
+//@   requires r != nil
+//@   inline
+//@ end
+//@ func (*Resource).SetGPUs
+//@   props C01 C02 C14
+//@   requires r != nil
+//@   inline
+//@ end
+//@ func (*Resource).AddGPUs
+//@   props C01 C02 C14
+//@   requires r != nil
+//@   inline
+//@ end
+//@ func (*Resource).SubGPUs
+//@   props C01 C02 C14
+//@   requires r != nil
+//@   inline
+//@ end
+
+// ---- GpuResourceRequirement --------------------------------------------------------
+// Extended-resource GPUs of a request: portion (fixed point, 2 decimals, math.Round = half away from zero) times device count.
+//@ define roundHalfAway(x real) int = ite(x >= 0.0, floor(x + 0.5), 0 - floor(0.5 - x))
+//@ define extGpus(portion real, count int) real = real(roundHalfAway(portion * 100.0) * count) / 100.0
+//@ define reqGpus(g *GpuResourceRequirement) real = extGpus(g.portion, g.count)
+//@ define isFractional(g *GpuResourceRequirement) bool = g.gpuMemory > 0 || (g.count > 0 && g.portion < 1.0)
+
+//@ func getExtendedResourceGpus
+//@   props C01 C02 C14
+//@   pure
+//@   ensures result == extGpus(portion, count)
+//@ end
+
+//@ func (*GpuResourceRequirement).GPUs
+//@   props C01 C02 C14
+//@   requires g != nil
+//@   pure
+//@   ensures result == reqGpus(g)
+//@ end
+
+//@ func (*GpuResourceRequirement).GetNumOfGpuDevices
+//@   props C01 C02 C14
+//@   requires g != nil
+//@   inline
+//@ end
+//@ func (*GpuResourceRequirement).GpuMemory
+//@   props C01 C02 C14
+//@   requires g != nil
+//@   inline
+//@ end
+//@ func (*GpuResourceRequirement).GpuFractionalPortion
+//@   props C01 C02 C14
+//@   requires g != nil
+//@   inline
+//@ end
+//@ func (*GpuResourceRequirement).MigResources
+//@   props C01 C02 C14
+//@   requires g != nil
+//@   inline
+//@ end
+//@ func (*GpuResourceRequirement).DraGpuCounts
+//@   props C01 C14
+//@   requires g != nil
+//@   inline
+//@ end
+
+//@ func (*GpuResourceRequirement).IsFractionalRequest
+//@   props C01 C02 C14
+//@   requires g != nil
+//@   pure
+//@   ensures result == isFractional(g)
+//@ end
+
+// Number of GPUs requested through DRA claims: a fold (sum) over draGpuCounts. Kept abstract.
+//@ declare draGpus(g *GpuResourceRequirement) int
+
+//@ func (*GpuResourceRequirement).GetDraGpusCount
+//@   props C01 C14
+//@   trusted
+//@   note assumed: the sum over the map draGpuCounts is a function of the requirement object (no sum theory in the spec language); exact 0 for an empty map is stated
+//@   requires g != nil
+//@   pure
+//@   ensures result == draGpus(g)
+//@   ensures (forall k string :: !(k in g.draGpuCounts)) ==> result == 0
+//@ end
+
+// ---- ResourceRequirements --------------------------------------------------------
+// C01: a task request fits an amount of node resources iff its cpu/memory/scalars fit, its whole+fractional
+// GPUs plus DRA GPUs are within the GPUs of the amount, and every MIG profile it names is present with enough instances.
+//@ define fitsReq(r *ResourceRequirements, rr *Resource) bool = fitsBase(r.BaseResource, rr.BaseResource) && reqGpus(r.GpuResourceRequirement) + real(r.GetDraGpusCount()) <= rr.gpus && fitsScalars(r.migResources, rr.scalarResources)
+
+//@ func (*ResourceRequirements).LessEqualResource
+//@   props C01 C14
+//@   requires r != nil && rr != nil
+//@   pure
+//@   loop 1
+//@     invariant forall k in visited :: k in rr.scalarResources && r.migResources[k] <= rr.scalarResources[k]
+//@   ensures result == fitsReq(r, rr)
+//@ end
+
+// no GPUs requested through DRA claims (the DRA fold has no closed form in the spec language: exact GPU effects are stated for such requests)
+//@ define noDra(req *ResourceRequirements) bool = forall k string :: !(k in req.draGpuCounts)
+
+// C14: charging a request to a Resource is exact and component-wise: cpu, memory, every scalar, GPUs (= extended GPUs of
+// the request + DRA GPUs) and every MIG profile (stored among the scalars of the Resource).
+//@ func (*Resource).AddResourceRequirements
+//@   props C01 C14
+//@   requires r != nil && r.scalarResources != nil
+//@   requires req != nil ==> r.scalarResources != req.scalarResources && r.scalarResources != req.migResources
+//@   modifies r.milliCpu, r.memory, r.gpus, r.scalarResources[*]
+//@   loop 1
+//@     invariant noDra(req) ==> r.gpus == old(r.gpus) + reqGpus(req.GpuResourceRequirement)
+//@   loop 2
+//@     invariant forall k in visited :: k in req.migResources
+//@     invariant forall k in visited :: r.scalarResources[k] == old(r.scalarResources[k]) + req.scalarResources[k] + req.migResources[k] && k in r.scalarResources
+//@     invariant forall k v1.ResourceName :: !(k in visited) ==> r.scalarResources[k] == old(r.scalarResources[k]) + req.scalarResources[k] && (k in r.scalarResources <==> ite(k in req.scalarResources, r.scalarResources[k] != 0, old(k in r.scalarResources)))
+//@   ensures req == nil ==> r.milliCpu == old(r.milliCpu) && r.memory == old(r.memory) && r.gpus == old(r.gpus)
+//@   ensures req == nil ==> forall k v1.ResourceName :: r.scalarResources[k] == old(r.scalarResources[k]) && (k in r.scalarResources <==> old(k in r.scalarResources))
+//@   ensures req != nil ==> r.milliCpu == old(r.milliCpu) + req.milliCpu
+//@   ensures req != nil ==> r.memory == old(r.memory) + req.memory
+//@   ensures req != nil && noDra(req) ==> r.gpus == old(r.gpus) + reqGpus(req.GpuResourceRequirement)
+//@   ensures req != nil ==> forall k v1.ResourceName :: r.scalarResources[k] == old(r.scalarResources[k]) + req.scalarResources[k] + req.migResources[k]
+//@   ensures req != nil ==> forall k v1.ResourceName :: k in r.scalarResources <==> (k in req.migResources || ite(k in req.scalarResources, old(r.scalarResources[k]) + req.scalarResources[k] != 0, old(k in r.scalarResources)))
+//@ end
+
+//@ func (*Resource).SubResourceRequirements
+//@   props C01 C14
+//@   requires r != nil && r.scalarResources != nil && req != nil
+//@   requires r.scalarResources != req.scalarResources && r.scalarResources != req.migResources
+//@   modifies r.milliCpu, r.memory, r.gpus, r.scalarResources[*]
+//@   loop 1
+//@     invariant noDra(req) ==> r.gpus == old(r.gpus) - reqGpus(req.GpuResourceRequirement)
+//@   loop 2
+//@     invariant forall k in visited :: k in req.migResources
+//@     invariant forall k in visited :: r.scalarResources[k] == old(r.scalarResources[k]) - req.scalarResources[k] - req.migResources[k] && k in r.scalarResources
+//@     invariant forall k v1.ResourceName :: !(k in visited) ==> r.scalarResources[k] == old(r.scalarResources[k]) - req.scalarResources[k] && (k in r.scalarResources <==> ite(k in req.scalarResources, r.scalarResources[k] != 0, old(k in r.scalarResources)))
+//@   ensures r.milliCpu == old(r.milliCpu) - req.milliCpu
+//@   ensures r.memory == old(r.memory) - req.memory
+//@   ensures noDra(req) ==> r.gpus == old(r.gpus) - reqGpus(req.GpuResourceRequirement)
+//@   ensures forall k v1.ResourceName :: r.scalarResources[k] == old(r.scalarResources[k]) - req.scalarResources[k] - req.migResources[k]
+//@   ensures forall k v1.ResourceName :: k in r.scalarResources <==> (k in req.migResources || ite(k in req.scalarResources, old(r.scalarResources[k]) - req.scalarResources[k] != 0, old(k in r.scalarResources)))
+//@ end
+
+// ---- ResourceVector ------------------------------------------------------------------
+// C14: vector arithmetic is exact and index-wise; a shorter receiver is zero-extended first; reads outside the vector are 0.
+//@ define vget(v ResourceVector, i int) real = ite(0 <= i && i < len(v), v[i], 0.0)
+
+//@ func (ResourceVector).Get
+//@   props C01 C14
+//@   pure
+//@   ensures result == vget(v, index)
+//@ end
+
+//@ func (ResourceVector).Set
+//@   props C01 C14
+//@   modifies v[*]
+//@   ensures forall i in v :: v[i] == ite(i == index, value, old(v[i]))
+//@ end
+
+//@ func (*ResourceVector).Add
+//@   props C01 C14
+//@   requires v != nil
+//@   modifies *v, (*v)[*]
+//@   loop 1
+//@     invariant 0 - 1 <= rangeindex && rangeindex < max(len(other), 1) && len(*v) == max(old(len(*v)), len(other))
+//@     invariant forall i int :: 0 <= i && i < len(*v) ==> (*v)[i] == old(vget(*v, i)) + ite(i <= rangeindex, old(vget(other, i)), 0.0)
+//@   ensures len(*v) == max(old(len(*v)), len(other))
+//@   ensures forall i int :: 0 <= i && i < len(*v) ==> (*v)[i] == old(vget(*v, i)) + old(vget(other, i))
+//@ end
+
+// ---- emptiness (C01: a best-effort task requests nothing above the minimal quantities) ----------------
+//@ define baseEmpty(r *BaseResource) bool = r.milliCpu < 10.0 && r.memory < 10.0 * 1024.0 * 1024.0 && (forall k in r.scalarResources :: r.scalarResources[k] < 10)
+//@ define gpuReqEmpty(g *GpuResourceRequirement) bool = reqGpus(g) <= 0.01 && (forall k in g.draGpuCounts :: g.draGpuCounts[k] <= 0) && (forall k in g.migResources :: g.migResources[k] <= 0)
+//@ define reqEmpty(r *ResourceRequirements) bool = gpuReqEmpty(r.GpuResourceRequirement) && baseEmpty(r.BaseResource)
+
+//@ func (*BaseResource).IsEmpty
+//@   props C01
+//@   requires r != nil
+//@   pure
+//@   loop 1
+//@     invariant forall k in visited :: r.scalarResources[k] < 10
+//@   ensures result == baseEmpty(r)
+//@ end
+
+//@ func (*GpuResourceRequirement).IsEmpty
+//@   props C01
+//@   requires g != nil
+//@   pure
+//@   loop 1
+//@     invariant forall k in visited :: g.draGpuCounts[k] <= 0
+//@   loop 2
+//@     invariant forall k in visited :: g.migResources[k] <= 0
+//@   ensures result == gpuReqEmpty(g)
+//@ end
+
+//@ func (*ResourceRequirements).IsEmpty
+//@   props C01
+//@   requires r != nil
+//@   pure
+//@   ensures result == reqEmpty(r)
+//@ end
